@@ -340,6 +340,63 @@ func c20Build(r *core.Run, ch *core.Child, build string, rng *rand.Rand) {
 		}
 	}
 
+	// ---- (2b) long strings / byte arrays on a stream, followed by further values ------
+	// lengths around the reader's pre-allocation limit (4096) and its doublings; the stream
+	// must stand exactly behind the value afterwards and the following reads must see their bytes
+	for _, n := range []int{0, 1, 100, 4095, 4096, 4097, 5000, 8191, 8192, 8193, 12288, 16384, 16385, 70001} {
+		for _, typ := range []string{"string", "bytes"} {
+			for _, variant := range []string{"full", "1", "3", "1000", "4096", "half"} {
+				if variant == "1" && n > 3000 {
+					continue
+				}
+				loc := map[string]string{"type": typ, "reader": "stream/" + variant, "length": fmt.Sprint(n)}
+				m, ok := c20Do(r, ch, build, map[string]any{"op": "strseq", "type": typ, "variant": variant, "k": n, "err": "eof"}, "long-value", loc)
+				if !ok {
+					continue
+				}
+				r.Eval("strseq/" + typ + "/" + variant + "/" + fmt.Sprint(n) + "/" + build)
+				det := map[string]any{"result": m, "build": build}
+				switch {
+				case m["outcome"] != "ok":
+					r.Violate("long-value: panic", loc, det)
+				case m["body_ok"] != true || fmt.Sprint(m["err_after_string"]) != "":
+					r.Violate("long-value: valid input not read back", loc, det)
+				case int(m["pos_after"].(float64)) != 4+n:
+					r.Violate("long-value: stream position after the value is not its end", loc, det)
+				case uint32(m["next32"].(float64)) != 0xA1B2C3D4 || uint16(m["next16"].(float64)) != 0x55AA || fmt.Sprint(m["err"]) != "":
+					r.Violate("long-value: the values that follow are not read back", loc, det)
+				case m["alloc"].(float64) > float64(64<<10+8*n):
+					r.Violate("long-value: allocation out of proportion", loc, det)
+				}
+				if n < 2 {
+					continue
+				}
+				// cut inside the payload: error state set, nothing but a prefix returned, bounded allocation
+				for _, cut := range []int{4 + n/2, 4 + n - 1, 5} {
+					for _, ek := range []string{"eof", "generic"} {
+						loc := map[string]string{"type": typ, "reader": "stream/" + variant, "length": fmt.Sprint(n), "cut": "payload", "err": ek}
+						m, ok := c20Do(r, ch, build, map[string]any{"op": "strseq", "type": typ, "variant": variant, "k": n, "lo": cut, "err": ek}, "long-value", loc)
+						if !ok {
+							continue
+						}
+						r.Eval("strseq-cut/" + typ + "/" + variant + "/" + fmt.Sprint(n) + "/" + fmt.Sprint(cut) + ek + "/" + build)
+						det := map[string]any{"result": m, "build": build, "cut": cut}
+						switch {
+						case m["outcome"] != "ok":
+							r.Violate("long-value: panic on a truncated stream", loc, det)
+						case fmt.Sprint(m["err_after_string"]) == "":
+							r.Violate("long-value: truncated stream not reflected in error state", loc, det)
+						case m["prefix_ok"] != true || int(m["len"].(float64)) > n:
+							r.Violate("long-value: bytes returned that the stream never delivered", loc, det)
+						case m["alloc"].(float64) > float64(64<<10+8*n):
+							r.Violate("long-value: allocation out of proportion", loc, det)
+						}
+					}
+				}
+			}
+		}
+	}
+
 	// ---- (3) string readers on every buffer length x count ---------------------------
 	bodies := [][]byte{{}, []byte("a"), []byte("hello"), []byte("\xff\xfe\x00z"), []byte(strings.Repeat("xyz0123456", 30))}
 	for _, body := range bodies {
